@@ -314,9 +314,16 @@ def free_run(rng: random.Random, idx: int, n_threads: int, extra: bool = False):
     import apischema.cache
 
     apischema.cache.reset()
-    baseline = {t: calls(cs, schema_first=bool(k % 2)) for k, (t, cs) in enumerate(plan.items())}
-    apischema.cache.reset()
     problems = []
+    baseline = {}
+    for k, (t, cs) in enumerate(plan.items()):
+        try:
+            baseline[t] = calls(cs, schema_first=bool(k % 2))
+        except Exception as exc:  # the verdict stays total: what the threads left behind changes LATER results
+            baseline[t] = ("raised", type(exc).__name__, str(exc)[:200])
+            problems.append(f"the sequential run AFTER the concurrent one raised {type(exc).__name__}: {exc} (thread {t}'s calls): "
+                            "the interleaving left a state behind that changes later results")
+    apischema.cache.reset()
     for t, (kind, val) in results.items():
         if kind != "ok" or val != baseline[t]:
             problems.append(f"thread {t}: concurrent {kind} {val!r} vs sequential {baseline[t]!r}")
